@@ -108,6 +108,7 @@ impl<T> Sender<T> {
     fn c(&self) -> &mut Ctrl { unsafe { &mut *self.c } }
     pub fn send(&self, msg: T) -> Result<(), SendError<T>> {
         vs::schedule_point(vs::S_Q_SEND);
+        vs::note_may_block(self.c().class as u8);
         if self.c().receivers == 0 { return Err(SendError(msg)); }
         if self.c().len >= self.c().cap {
             vs::note_blocking(self.c().class as u8);
